@@ -20,6 +20,8 @@ inductive TMOp (α : Type) where
   | rollback
   | add (blockNum blockPos idx : Nat) (leaf : α)        -- AppendOnlyTree.AddLeaf
   | upsert (blockNum blockPos idx : Nat) (leaf : α)     -- UpdatableTree.UpsertLeaf
+  | addF (k : Nat) (blockNum blockPos idx : Nat) (leaf : α)   -- AddLeaf whose k-th storage statement fails
+  | upsertF (k : Nat) (blockNum blockPos idx : Nat) (leaf : α) -- UpsertLeaf whose k-th storage statement fails
   | reorg (first : Nat)                                 -- Tree.Reorg inside the open transaction
   | restart                                             -- new process: fresh tree object, tables kept
 
@@ -33,6 +35,18 @@ def TM.init (H : HashAlg α) (n : Nat) : TM α := { t := AOT.new H n, db := {} }
 
 section
 variable [DecidableEq α]
+
+/-- `AddLeaf` inside the open transaction -/
+def TM.doAdd (H : HashAlg α) (n : Nat) (s : TM α) (bn bp idx : Nat) (leaf : α) : TM α × TMOut α :=
+  match addLeaf H n s.t s.db bn bp idx leaf with
+  | (t', .error e) => ({ s with t := t' }, .err e)
+  | (t', .ok db') => ({ s with t := t', db := db', cbs := s.cbs + 1 }, .ok)
+
+/-- `UpsertLeaf` inside the open transaction -/
+def TM.doUpsert (H : HashAlg α) (n : Nat) (s : TM α) (bn bp idx : Nat) (leaf : α) : TM α × TMOut α :=
+  match upsertLeaf H n s.db bn bp idx leaf with
+  | .error e => (s, .err e)
+  | .ok (r, db') => ({ s with db := db' }, .root r)
 
 def TM.step (H : HashAlg α) (n : Nat) (s : TM α) : TMOp α → TM α × TMOut α
   | .begin => match s.snap with
@@ -49,16 +63,21 @@ def TM.step (H : HashAlg α) (n : Nat) (s : TM α) : TMOp α → TM α × TMOut 
       ({ s with db := d, snap := none, cbs := 0, t := t }, .ok)
   | .add bn bp idx leaf => match s.snap with
     | none => (s, .badOp)
-    | some _ =>
-      match addLeaf H n s.t s.db bn bp idx leaf with
-      | (t', .error e) => ({ s with t := t' }, .err e)
-      | (t', .ok db') => ({ s with t := t', db := db', cbs := s.cbs + 1 }, .ok)
+    | some _ => TM.doAdd H n s bn bp idx leaf
   | .upsert bn bp idx leaf => match s.snap with
     | none => (s, .badOp)
+    | some _ => TM.doUpsert H n s bn bp idx leaf
+  | .addF k bn bp idx leaf => match s.snap with
+    | none => (s, .badOp)
     | some _ =>
-      match upsertLeaf H n s.db bn bp idx leaf with
-      | .error e => (s, .err e)
-      | .ok (r, db') => ({ s with db := db' }, .root r)
+      match addLeafFaultAt H n s.t s.db idx leaf k with
+      | some t' => ({ s with t := t' }, .err .fault)      -- the caller rolls the transaction back
+      | none => TM.doAdd H n s bn bp idx leaf             -- k is past the last statement: no fault
+  | .upsertF k bn bp idx leaf => match s.snap with
+    | none => (s, .badOp)
+    | some _ =>
+      if k < 1 + n + 1 + n then (s, .err .fault)          -- getLastRoot, n× getRHTNode, storeRoot, n× storeNodes
+      else TM.doUpsert H n s bn bp idx leaf
   | .reorg first => match s.snap with
     | none => (s, .badOp)
     | some _ => ({ s with db := s.db.reorg first }, .ok)
